@@ -61,6 +61,11 @@ CHECKS = {
             '974 cells: placement of the definition (never, before, later, one branch, both branches, one/all match arms, loop body, loop / match / comprehension variable outside its scope, handle arm, shadowing, nesting depth 1-3, tuple definitions) x use form (print, initialiser, argument, condition, interpolation) x 7 contexts; forward use of top-level functions/classes; field reads and completeness in explicit constructors (through if/match).',
             'The reference discipline is the one the property states; every cell is a small program that differs from an accepted program by one use; a mismatch that occurs in every context of its group is reported as one context-independent signature. Cells are deterministic (seed independent) and all are evaluated in both tiers.',
             'DESIGN.md section 4, C09'),
+    'C12': ('exploration',
+            'runtime monitor over repetition: identical arguments run K times sequentially in one process, on T concurrent threads, after a conflicting earlier workload in the same process (history test against a brand-new process) and in P further processes; verdicts and emitted bytes compared',
+            'Schedules here are hash seeds and process histories: every HashSet/HashMap instance inside mamba gets a fresh seed per run, so repetition explores iteration orders; the history test runs a program after a twin with the same class names but different relations (what a process-wide cache keyed by name would confuse) and compares with a process that never saw the twin. Workload biased to hash-ordered internals: interleaved class members, several parents, unions of 2-4 types incl. same-named generics, multi-member raise lists, multi-file projects, generated programs, repository samples.',
+            'Probabilistic in the number of repetitions (quick: 8 sequential + 8 threads + 2-3 processes per flag; thorough: 40 + 16 + 3); differences in diagnostic text are reported but are not violations.',
+            'DESIGN.md section 4, C12'),
 }
 
 NOT_YET = 'monitor not built yet in this revision (construction order: DESIGN.md section 9); not claimed rather than claimed weakly'
